@@ -1176,3 +1176,984 @@ def rule_header(ctx, floor=28):
                                           lambda p: _roles(p) or ('V' if p == 'v' else None)), '>=', '>=', '', False, True)
     r.positive_control(any(c == 'wrap' for c, t in pp) and not ok, 'unsigned `for (v = b1; v >= b2; v--)` flagged, guarded form accepted')
     return r
+
+
+# ================================================================================================================ C14-TREE
+# The loops IterationTransform builds, decided on a complete family of abstract for-in statements.  The *source* of each _transform_*_iteration method (and of
+# _optimise_for_loop / _try_optimise_iterator_function for the container methods) is interpreted by the checker's evaluator (sC21.MiniPy) on a ForInStatNode whose
+# iterable is an abstract container / range() call / C array slice; type analysis of the constructed nodes is replaced by the identity (analyse_* / coerce_* keep the
+# operand trees).  The constructed tree (LetNode / TempsBlockNode / ForFromStatNode / WhileStatNode / IfStatNode / *IterationNextNode / assignments built from
+# IntNode, binop_node(), PrimaryCmpNode ...) is then *simulated by the checker* for container lengths 0, 1 and 3 under the semantics the other C14 rules establish for
+# those node classes (ForFromStatNode: C14-REL/HDR; *IterationNextNode: the helper contract of C14-S2/RET), and the trace - the value bound to the loop target(s) at each
+# execution of the body, and whether the else clause runs - is compared with the Python for-loop over the same abstract container.
+from . import sC21 as _M21          # (sC21 imports this module for Emu: the names are bound on first use, see _bind21)
+import itertools
+
+
+def _bind21():
+    g = globals()
+    for nm in ('MiniPy', 'Obj', 'StubClass', 'HostFn', 'Unmodelled', 'PyRaise', 'visitor_overrides'):
+        g[nm] = getattr(_M21, nm)
+
+
+def _tree_overrides():
+    _bind21()
+    ident = lambda it, self, *a, **k: self
+    none = lambda it, self, *a, **k: None
+    o = dict(visitor_overrides())
+    for nm in ('analyse_types', 'analyse_target_types', 'analyse_expressions', 'coerce_to', 'coerce_to_simple', 'coerce_to_temp', 'coerce_to_pyobject', 'coerce_to_boolean',
+               'coerce_to_index', 'as_none_safe_node', 'coerce_to_integer'):
+        o[('Node', nm)] = ident
+    for nm in ('analyse_operation', 'analyse_declarations', 'analyse_target_declaration', 'set_up_loop'):
+        o[('Node', nm)] = none
+    return o
+
+
+class _TreeWorld:
+    def __init__(self, ix):
+        _bind21()
+        self.errors = []
+        rep = {'error': HostFn(lambda it, pos, msg, *a: self.errors.append(msg), 'error'), 'warning': HostFn(lambda it, *a, **k: None, 'warning')}
+
+        def tdefault(o, name):
+            if name.startswith('is_') or name in ('signed',):
+                return False
+            if name in ('return_type', 'base_type'):
+                return Obj(o.cls, {'$tag': '%s.%s' % (o.attrs.get('$tag'), name)})
+            raise AttributeError(name)
+        self.TypeStub = StubClass('TypeStub', default=tdefault, methods={
+            '__call__': lambda it, self, *a, **k: Obj(self.cls, {'$ctor': self.attrs.get('$tag'), '$args': list(a), '$kw': dict(k)}),
+            'element_ptr_type': lambda it, self: self, 'assignable_from': lambda it, self, o: True,
+            'lookup': lambda it, self, name: Obj(self.cls, {'$tag': 'entry:%s' % name}),
+            '__eq__': lambda it, self, o: True, '__ne__': lambda it, self, o: False})
+        types = {'*': lambda name: Obj(self.TypeStub, {'$tag': name})}
+
+        def adefault(o, name):
+            if name.startswith('__'):
+                raise AttributeError(name)
+            return Obj(o.cls, {'$tag': '%s.%s' % (o.attrs.get('$tag'), name)})
+        self.AnyStub = StubClass('AnyStub', default=adefault, methods={'__call__': lambda it, self, *a, **k: Obj(self.cls, {'$tag': '%s()' % self.attrs.get('$tag')})})
+        anyf = {'*': lambda name: Obj(self.AnyStub, {'$tag': name})}
+        opts = {'copy_inherited_directives': HostFn(lambda it, d, **k: dict(d, **k), 'copy_inherited_directives'), 'convert_range': True}
+        self.it = MiniPy(ix, stub_modules={'Errors': rep, 'Optimize': dict(rep), 'Builtin': types, 'PyrexTypes': types, 'Options': opts, 'Code': anyf, 'StringEncoding': anyf},
+                         family_overrides=_tree_overrides())
+        self.pos = ('s.py', 1, 0)
+
+    def typ(self, **flags):
+        return Obj(self.TypeStub, dict(flags))
+
+    def node(w_, mod_, cls_, **attrs):
+        attrs.setdefault('pos', w_.pos)
+        return Obj(w_.it.cls(mod_, cls_), attrs)
+
+    def marker(self, tag):
+        return self.node('Nodes', 'PassStatNode', **{'$marker': tag})
+
+    def transform(self):
+        it = self
+        ctx_stub = Obj(self.AnyStub, {'$tag': 'context', 'language_level': 3})
+        gscope = Obj(StubClass('GScope'), {'context': ctx_stub})
+        env = Obj(StubClass('EnvStub', methods={'global_scope': lambda it_, s: gscope, 'lookup': lambda it_, s, name: None}), {'directives': {}})
+        return Obj(self.it.cls('Optimize', 'IterationTransform'), dict(env_stack=[(None, env)]))
+
+    def loop(self, target, seq):
+        itn = self.node('ExprNodes', 'IteratorNode', sequence=seq, reversed=False, expr_scope=None)
+        return self.node('Nodes', 'ForInStatNode', target=target, iterator=itn, item=self.node('ExprNodes', 'NextNode', iterator=itn, **{'$tag': 'next'}),
+                         body=self.marker('body'), else_clause=self.marker('else'))
+
+    def name(self, n, **tflags):
+        return self.node('ExprNodes', 'NameNode', name=n, type=self.typ(**tflags), entry=None)
+
+    def intnode(self, v, **kw):
+        return self.node('ExprNodes', 'IntNode', value=str(v), constant_result=v, type=self.typ(is_int=True), **kw)
+
+    def sym(self, tag, value):
+        """a non-constant C integer expression whose run-time value the checker fixes for the simulation"""
+        nac = self.it.module_global(self.it.ix.mod('ExprNodes'), 'not_a_constant')
+        return self.node('ExprNodes', 'NameNode', name=tag, type=self.typ(is_int=True), entry=None, constant_result=nac, **{'$value': value})
+
+
+# ------------------------------------------------------------------------------------------ simulation of the constructed tree
+class _Brk(Exception):
+    pass
+
+
+class _Cnt(Exception):
+    pass
+
+
+class _Exhausted(Exception):
+    """the C `break` emitted by a *IterationNextNode: leaves the enclosing C loop normally (its else clause runs)"""
+
+
+class _LoopSim:
+    def __init__(self, it, L, targets):
+        self.it, self.L = it, L
+        self.store = {}
+        self.trace = []
+        self.targets = targets          # names whose values are recorded at every execution of the body
+        self.steps = 0
+
+    def isa(self, o, name):
+        return isinstance(o, Obj) and name in self.it.mro_names(o.cls)
+
+    def g(self, o, name, default=None):
+        try:
+            return self.it.getattr(o, name)
+        except PyRaise:
+            return default
+
+    # ---- values
+    def key(self, o):
+        if self.isa(o, 'TempRefNode'):
+            return ('h', id(self.g(o, 'handle')))
+        if self.isa(o, 'ResultRefNode'):
+            return ('r', id(o))
+        if self.isa(o, 'NameNode'):
+            return ('n', self.g(o, 'name'))
+        raise Unmodelled('assignment target %s in the constructed loop' % o.cls.name)
+
+    def assign(self, t, v):
+        if self.isa(t, 'SequenceNode'):
+            if not (isinstance(v, tuple) and v and v[0] == 'pair'):
+                raise Unmodelled('unpacking %r' % (v,))
+            for x, y in zip(self.g(t, 'args'), v[1:]):
+                self.assign(x, y)
+            return
+        self.store[self.key(t)] = v
+
+    def ev(self, o):
+        self.steps += 1
+        if self.steps > 20000:
+            raise _Runaway()
+        g = self.g
+        if o is None:
+            return None
+        if self.isa(o, 'IntNode'):
+            return int(g(o, 'value'))
+        if self.isa(o, 'BoolNode'):
+            return bool(g(o, 'value'))
+        if self.isa(o, 'NullNode'):
+            return None
+        if self.isa(o, 'TempRefNode') or self.isa(o, 'ResultRefNode'):
+            k = self.key(o)
+            if k not in self.store:
+                raise Unmodelled('temporary read before it is set')
+            return self.store[k]
+        if self.isa(o, 'NameNode'):
+            if '$value' in o.attrs:
+                return o.attrs['$value']
+            if '$ptr' in o.attrs:
+                return ('ptr', 0)
+            if '$container' in o.attrs:
+                return ('container',)
+            k = self.key(o)
+            if k in self.store:
+                return self.store[k]
+            raise Unmodelled('name %s read in the constructed loop' % g(o, 'name'))
+        if self.isa(o, 'CloneNode') or self.isa(o, 'CoercionNode'):
+            return self.ev(g(o, 'arg'))
+        if self.isa(o, 'PrimaryCmpNode'):
+            a, b = self.ev(g(o, 'operand1')), self.ev(g(o, 'operand2'))
+            a, b = self.num(a), self.num(b)
+            return {'<': a < b, '<=': a <= b, '>': a > b, '>=': a >= b, '==': a == b, '!=': a != b}[g(o, 'operator')]
+        if self.isa(o, 'BoolBinopNode'):
+            a = self.ev(g(o, 'operand1'))
+            if g(o, 'operator') == 'and':
+                return self.ev(g(o, 'operand2')) if a else a
+            return a if a else self.ev(g(o, 'operand2'))
+        if self.isa(o, 'BinopNode'):
+            a, b = self.ev(g(o, 'operand1')), self.ev(g(o, 'operand2'))
+            op = g(o, 'operator')
+            if isinstance(a, tuple) and a[0] == 'ptr':
+                return ('ptr', a[1] + b) if op == '+' else ('ptr', a[1] - b)
+            return {'+': lambda: a + b, '-': lambda: a - b, '*': lambda: a * b, '//': lambda: a // b, '/': lambda: a // b}[op]()
+        if self.isa(o, 'PythonCapiCallNode'):
+            fn = g(g(o, 'function'), 'cname')
+            args = g(o, 'args')
+            if fn == '__Pyx_PyUnicode_READ':
+                return ('item', self.ev(args[2]))
+            if fn in ('__Pyx_PyBytes_AsWritableString',):
+                return ('ptr', 0)
+            if fn in ('__Pyx_PyBytes_GET_SIZE',):
+                return self.L
+            if fn in ('__Pyx_dict_iterator', '__Pyx_dict_iterator_legacy', '__Pyx_set_iterator'):
+                return ('iter', fn)
+            raise Unmodelled('C-API call %s in the constructed loop' % fn)
+        if self.isa(o, 'SimpleCallNode'):
+            f = g(o, 'function')
+            if self.isa(f, 'NameNode') and g(f, 'name') == 'len':
+                return self.L
+            raise Unmodelled('call in the constructed loop')
+        if self.isa(o, 'IndexNode'):
+            b, i = self.ev(g(o, 'base')), self.ev(g(o, 'index'))
+            if isinstance(b, tuple) and b[0] == 'ptr':
+                return ('item', b[1] + i)
+            return ('item', i)
+        if self.isa(o, 'DereferenceNode'):
+            b = self.ev(g(o, 'operand'))
+            return ('item', b[1])
+        if self.isa(o, 'AmpersandNode'):
+            return ('addr', g(o, 'operand'))
+        if self.isa(o, 'NextNode'):
+            return self.store[('next',)]
+        raise Unmodelled('expression node %s in the constructed loop' % o.cls.name)
+
+    @staticmethod
+    def num(v):
+        return v[1] if isinstance(v, tuple) and v[0] == 'ptr' else v
+
+    # ---- statements
+    def ex(self, o):
+        self.steps += 1
+        if self.steps > 20000:
+            raise _Runaway()
+        g = self.g
+        if o is None:
+            return
+        if '$marker' in o.attrs:
+            tag = o.attrs['$marker']
+            if tag == 'body':
+                self.trace.append(('body',) + tuple(self.store.get(('n', t)) for t in self.targets))
+            else:
+                self.trace.append((tag,))
+            return
+        if self.isa(o, 'LetNode'):
+            self.store[('r', id(g(o, 'lazy_temp')))] = self.ev(g(o, 'temp_expression'))
+            return self.ex(g(o, 'body'))
+        if self.isa(o, 'TempsBlockNode') or self.isa(o, 'CompilerDirectivesNode') or self.isa(o, 'CriticalSectionStatNode'):
+            return self.ex(g(o, 'body'))
+        if self.isa(o, 'StatListNode'):
+            for s in g(o, 'stats'):
+                self.ex(s)
+            return
+        if self.isa(o, 'SingleAssignmentNode'):
+            return self.assign(g(o, 'lhs'), self.ev(g(o, 'rhs')))
+        if self.isa(o, 'ExprStatNode'):
+            e = g(o, 'expr')
+            if self.isa(e, 'PythonCapiCallNode') and g(g(e, 'function'), 'cname') == '__Pyx_init_unicode_iteration':
+                decl = g(g(e, 'function'), 'type').attrs.get('$args', [None, []])[1]
+                for d, a in zip(decl, g(e, 'args')):
+                    nm = d.attrs.get('$args', [None])[0]
+                    if nm == 'length':
+                        self.assign(g(a, 'operand'), self.L)
+                    elif nm in ('data', 'kind'):
+                        self.assign(g(a, 'operand'), 0)
+                return
+            raise Unmodelled('expression statement in the constructed loop')
+        if self.isa(o, 'IfStatNode'):
+            for c in g(o, 'if_clauses'):
+                if self.ev(g(c, 'condition')):
+                    return self.ex(g(c, 'body'))
+            return self.ex(g(o, 'else_clause'))
+        if self.isa(o, 'ContinueStatNode'):
+            raise _Cnt()
+        if self.isa(o, 'BreakStatNode'):
+            raise _Brk()
+        if self.isa(o, 'ForFromStatNode'):
+            b1, b2 = self.num(self.ev(g(o, 'bound1'))), self.num(self.ev(g(o, 'bound2')))
+            st = g(o, 'step')
+            step = self.ev(st) if st is not None else 1
+            r1, r2 = g(o, 'relation1'), g(o, 'relation2')
+            ptr = isinstance(self.ev(g(o, 'bound1')), tuple)
+            up = r1 in ('<', '<=')
+            i = b1 + (1 if r1 == '<' else -1 if r1 == '>' else 0)
+            cmp = {'<': lambda a, b: a < b, '<=': lambda a, b: a <= b, '>': lambda a, b: a > b, '>=': lambda a, b: a >= b}[r2]
+            n = 0
+            while cmp(i, b2):
+                n += 1
+                if n > 200:
+                    raise _Runaway()
+                self.assign(g(o, 'target'), ('ptr', i) if ptr else i)
+                try:
+                    self.ex(g(o, 'body'))
+                except _Cnt:
+                    pass
+                except _Brk:
+                    return
+                i += step if up else -step
+            return self.ex(g(o, 'else_clause'))
+        if self.isa(o, 'WhileStatNode'):
+            n = 0
+            while True:
+                c = g(o, 'condition')
+                if c is not None and not self.ev(c):
+                    break
+                n += 1
+                if n > 200:
+                    raise _Runaway()
+                try:
+                    self.ex(g(o, 'body'))
+                except _Cnt:
+                    continue
+                except _Brk:
+                    return
+                except _Exhausted:
+                    break
+            return self.ex(g(o, 'else_clause'))
+        if self.isa(o, 'DictIterationNextNode') or self.isa(o, 'SetIterationNextNode'):
+            pv = g(o, 'pos_index_var')
+            pos = self.ev(pv)
+            if pos >= self.L:
+                raise _Exhausted()
+            self.assign(pv, pos + 1)
+            if self.isa(o, 'SetIterationNextNode'):
+                self.assign(g(o, 'value_target'), ('item', pos))
+                return
+            for attr, val in (('key_target', ('key', pos)), ('value_target', ('val', pos)), ('tuple_target', ('pair', ('key', pos), ('val', pos)))):
+                t = g(o, attr)
+                if t is not None:
+                    self.assign(t, val)
+            return
+        if self.isa(o, 'ForInStatNode'):
+            itn = g(o, 'iterator')
+            order = range(self.L - 1, -1, -1) if g(itn, 'reversed') else range(self.L)
+            for i in order:
+                self.store[('next',)] = ('item', i)
+                self.assign(g(o, 'target'), self.ev(g(o, 'item')))
+                try:
+                    self.ex(g(o, 'body'))
+                except _Cnt:
+                    pass
+                except _Brk:
+                    return
+            return self.ex(g(o, 'else_clause'))
+        raise Unmodelled('statement node %s in the constructed loop' % o.cls.name)
+
+
+class _Runaway(Exception):
+    pass
+
+
+def loop_simulate(w, tree, L, targets):
+    s = _LoopSim(w.it, L, targets)
+    try:
+        s.ex(tree)
+    except _Runaway:
+        s.trace.append(('does not terminate',))
+    except (_Brk, _Cnt, _Exhausted):
+        s.trace.append(('jump outside a loop',))
+    return s.trace
+
+
+# ------------------------------------------------------------------------------------------ scenarios
+def py_slice_indices(start, stop, step, rev, N=40):
+    idx = list(range(N))[slice(start, stop, step)]
+    return idx[::-1] if rev else idx
+
+
+def tree_scenarios(w):
+    """yield (key, description, call(tr) -> result tree, targets, expected(L) -> trace)"""
+    it = w.it
+    out = []
+
+    def body_trace(vals, else_=True):
+        return [('body',) + (v if isinstance(v, tuple) and v and v[0] == '$multi' else (v,)) for v in vals]
+
+    def exp_items(idx_of_L, wrap=lambda i: ('item', i)):
+        def f(L):
+            return [('body', wrap(i)) for i in idx_of_L(L)] + [('else',)]
+        return f
+    # ---- range
+    for rev in (False, True):
+        for a, b, k in ((None, ('sym', 9), None), (('c', 2), ('c', 9), None), (('sym', 2), ('sym', 9), None), (('c', 2), ('c', 9), ('c', 3)), (('c', 0), ('c', 10), ('c', 3)),
+                        (('sym', 2), ('sym', 9), ('c', 3)), (('sym', 1), ('sym', 11), ('c', 2)), (('c', 9), ('c', 2), ('c', -1)), (('c', 9), ('c', 2), ('c', -3)),
+                        (('sym', 9), ('sym', 2), ('c', -3)), (('sym', 10), ('sym', 1), ('c', -2)), (('c', 5), ('c', 5), None), (('sym', 7), ('sym', 3), None)):
+            def mk(x):
+                return None if x is None else (w.intnode(x[1]) if x[0] == 'c' else w.sym('v', x[1]))
+
+            def call(tr, a=a, b=b, k=k, rev=rev):
+                args = [n for n in (mk(a), mk(b), mk(k)) if n is not None]
+                fn = w.node('ExprNodes', 'SimpleCallNode', function=w.name('range'), args=None, arg_tuple=w.node('ExprNodes', 'TupleNode', args=args, mult_factor=None), self=None)
+                node = w.loop(w.name('i', is_int=True), fn)
+                return it.call(it.getattr(tr, '_transform_range_iteration'), [node, fn], {'reversed': rev})
+            vals = [x[1] for x in (a, b, k) if x is not None]
+            r = list(range(*vals))
+            exp = (lambda L, r=r, rev=rev: [('body', i) for i in (r[::-1] if rev else r)] + [('else',)])
+            text = '%srange(%s)' % ('reversed ' if rev else '', ', '.join(('%d' % x[1]) if x[0] == 'c' else 'v%d' % x[1] for x in (a, b, k) if x is not None))
+            out.append(('range:%s%s' % ('reversed' if rev else 'forward', ':step' if k else ''), text, call, ['i'], exp))
+    # ---- C arrays
+    for rev in (False, True):
+        shapes = [('array', None, None, None)]
+        for st in (None, ('c', 0), ('c', 2), ('sym', 2)):
+            for sp in (('c', 9), ('sym', 9)):
+                shapes.append(('slice', st, sp, None))
+        for st, sp, k in ((('c', 0), ('c', 9), 1), (('c', 0), ('c', 9), 3), (('c', 2), ('sym', 9), 2), (None, ('c', 9), 3), (('c', 8), ('c', 1), -1), (('c', 8), ('c', 1), -3),
+                          (('c', 8), None, -3), (('c', 8), None, -2), (('c', 5), None, -1), (('sym', 8), ('c', 1), -2)):
+            shapes.append(('stepslice', st, sp, k))
+        for kind, st, sp, k in shapes:
+            def call(tr, kind=kind, st=st, sp=sp, k=k, rev=rev):
+                def mk(x):
+                    return None if x is None else (w.intnode(x[1]) if x[0] == 'c' else w.sym('v', x[1]))
+                if kind == 'array':
+                    arr = w.node('ExprNodes', 'NameNode', name='arr', entry=None, type=w.typ(is_array=True, size=7, base_type=w.typ(is_int=True)), **{'$ptr': True})
+                    sl = arr
+                else:
+                    arr = w.node('ExprNodes', 'NameNode', name='arr', entry=None, type=w.typ(is_ptr=True, base_type=w.typ(is_int=True)), **{'$ptr': True})
+                    if kind == 'slice':
+                        sl = w.node('ExprNodes', 'SliceIndexNode', base=arr, start=mk(st), stop=mk(sp), type=w.typ(is_ptr=True))
+                    else:
+                        none = lambda: w.node('ExprNodes', 'NoneNode', constant_result=None)
+                        idx = w.node('ExprNodes', 'SliceNode', start=mk(st) or none(), stop=mk(sp) or none(), step=w.intnode(k))
+                        sl = w.node('ExprNodes', 'IndexNode', base=arr, index=idx, type=w.typ(is_ptr=True))
+                node = w.loop(w.name('x', is_int=True), sl)
+                return it.call(it.getattr(tr, '_transform_carray_iteration'), [node, sl], {'reversed': rev})
+            if kind == 'array':
+                idx = py_slice_indices(None, 7, None, rev)
+                text = 'c_array[7]'
+            else:
+                idx = py_slice_indices(st[1] if st else None, sp[1] if sp else None, k, rev)
+                text = 'p[%s:%s%s]' % ('' if st is None else st[1] if st[0] == 'c' else 'v%d' % st[1], '' if sp is None else sp[1] if sp[0] == 'c' else 'v%d' % sp[1], '' if k is None else ':%d' % k)
+            exp = (lambda L, idx=idx: [('body', ('item', i)) for i in idx] + [('else',)])
+            out.append(('carray:%s%s' % ('reversed' if rev else 'forward', ':step' if k else ''), ('reversed ' if rev else '') + text, call, ['x'], exp))
+    # ---- str / bytes / bytearray / memoryview
+    for rev in (False, True):
+        def call_u(tr, rev=rev):
+            s = w.node('ExprNodes', 'NameNode', name='s', entry=None, type=w.typ(is_pyobject=True, is_pystr_type=True), **{'$container': True})
+            node = w.loop(w.name('c', is_int=True), s)
+            return it.call(it.getattr(tr, '_transform_unicode_iteration'), [node, s], {'reversed': rev})
+
+        def call_b(tr, rev=rev):
+            s = w.node('ExprNodes', 'NameNode', name='b', entry=None, type=w.typ(is_pyobject=True, is_pybytes_type=True), **{'$container': True})
+            node = w.loop(w.name('c', is_int=True), s)
+            return it.call(it.getattr(tr, '_transform_bytes_iteration'), [node, s], {'reversed': rev})
+        exp = (lambda L, rev=rev: [('body', ('item', i)) for i in (range(L - 1, -1, -1) if rev else range(L))] + [('else',)])
+        out.append(('str:%s' % ('reversed' if rev else 'forward'), ('reversed ' if rev else '') + 'str', call_u, ['c'], exp))
+        out.append(('bytes:%s' % ('reversed' if rev else 'forward'), ('reversed ' if rev else '') + 'bytes', call_b, ['c'], exp))
+        for mut in (True, False):
+            def call_i(tr, rev=rev, mut=mut):
+                s = w.node('ExprNodes', 'NameNode', name='m', entry=None, type=w.typ(is_pyobject=mut, is_memoryviewslice=not mut), **{'$container': True})
+                node = w.loop(w.name('c', is_int=True), s)
+                return it.call(it.getattr(tr, '_transform_indexable_iteration'), [node, s], {'is_mutable': mut, 'reversed': rev})
+            out.append(('%s:%s' % ('bytearray' if mut else 'memoryview', 'reversed' if rev else 'forward'), ('reversed ' if rev else '') + ('bytearray' if mut else 'memoryview'), call_i, ['c'], exp))
+    # ---- enumerate
+    for start in (None, ('c', 5), ('sym', 5)):
+        def call_e(tr, start=start):
+            seq = w.node('ExprNodes', 'NameNode', name='seq', entry=None, type=w.typ(is_pyobject=True), **{'$container': True})
+            args = [seq] + ([w.intnode(start[1]) if start[0] == 'c' else w.sym('v', start[1])] if start else [])
+            fn = w.node('ExprNodes', 'SimpleCallNode', function=w.name('enumerate'), args=None, arg_tuple=w.node('ExprNodes', 'TupleNode', args=args, mult_factor=None), self=None)
+            tgt = w.node('ExprNodes', 'TupleNode', args=[w.name('i', is_int=True), w.name('x', is_pyobject=True)], mult_factor=None)
+            node = w.loop(tgt, fn)
+            return it.call(it.getattr(tr, '_transform_enumerate_iteration'), [node, fn], {})
+        s0 = start[1] if start else 0
+        exp = (lambda L, s0=s0: [('body', s0 + i, ('item', i)) for i in range(L)] + [('else',)])
+        out.append(('enumerate', 'enumerate(seq%s)' % (', %s' % start[1] if start else ''), call_e, ['i', 'x'], exp))
+    # ---- dict
+    for method, keys, values, tshape in ((None, True, False, 'k'), ('keys', True, False, 'k'), ('values', False, True, 'v'), ('items', True, True, 'kv'), ('items', True, True, 't')):
+        def call_d(tr, method=method, keys=keys, values=values, tshape=tshape):
+            d = w.node('ExprNodes', 'NameNode', name='d', entry=None, type=w.typ(is_pyobject=True, is_pydict_type=True, is_pyanydict_type=True), **{'$container': True})
+            if tshape == 'kv':
+                tgt = w.node('ExprNodes', 'TupleNode', args=[w.name('k', is_pyobject=True), w.name('v', is_pyobject=True)], mult_factor=None)
+            else:
+                tgt = w.name('t', is_pyobject=True)
+            if method is None:
+                node = w.loop(tgt, d)
+                return it.call(it.getattr(tr, '_optimise_for_loop'), [node, d], {})
+            fn = w.node('ExprNodes', 'SimpleCallNode', function=w.node('ExprNodes', 'AttributeNode', obj=d, attribute=method, type=w.typ(is_pyobject=True)), args=[], arg_tuple=None, self=None,
+                        type=w.typ(is_pyobject=True))
+            node = w.loop(tgt, fn)
+            return it.call(it.getattr(tr, '_optimise_for_loop'), [node, fn], {})
+        if tshape == 'kv':
+            exp = (lambda L: [('body', ('key', i), ('val', i)) for i in range(L)] + [('else',)])
+            tg = ['k', 'v']
+        else:
+            wrap = {'k': lambda i: ('key', i), 'v': lambda i: ('val', i), 't': lambda i: ('pair', ('key', i), ('val', i))}[tshape]
+            exp = (lambda L, wrap=wrap: [('body', wrap(i)) for i in range(L)] + [('else',)])
+            tg = ['t']
+        out.append(('dict:%s' % (method or 'plain'), 'for %s in d%s' % ('k, v' if tshape == 'kv' else 't', ('.%s()' % method) if method else ''), call_d, tg, exp))
+    # ---- set
+    def call_s(tr):
+        s = w.node('ExprNodes', 'NameNode', name='s', entry=None, type=w.typ(is_pyobject=True, is_pyset_type=True, is_pyanyset_type=True), **{'$container': True})
+        node = w.loop(w.name('x', is_pyobject=True), s)
+        return it.call(it.getattr(tr, '_optimise_for_loop'), [node, s], {})
+    out.append(('set', 'for x in s', call_s, ['x'], (lambda L: [('body', ('item', i)) for i in range(L)] + [('else',)])))
+    return out
+
+
+
+
+TREE_PENDING = ('carray:reversed:step',)
+
+
+def rule_tree(ctx, part='main', floor=0):
+    _bind21()
+    """part 'main': every scenario class but reversed iteration over a stepped C array slice; part 'revstep': that class (pending finding)"""
+    ix = ctx.index
+    r = Rule('C14-TREE' if part == 'main' else 'C14-TREE-REVSTEP',
+             'IterationTransform: for every abstract for-in statement of the family (range() with 1-3 arguments, constant and run-time bounds, steps of both signs, reversed(); C arrays and '
+             'pointer slices; str, bytes, bytearray, memoryview; enumerate(); dict / .keys() / .values() / .items(); set) the loop the transform builds visits the items Python visits, in '
+             'the same order, binds the targets to the same values and runs the else clause when the iterable is exhausted', floor)
+    c = ix.cls('Optimize', 'IterationTransform')
+    w = _TreeWorld(ix)
+    worst = {}
+    for key, text, call, targets, exp in tree_scenarios(w):
+        if (key in TREE_PENDING) != (part != 'main'):
+            continue
+        w.it.steps = 0
+        del w.errors[:]
+        try:
+            tree = call(w.transform())
+        except Unmodelled as e:
+            raise AnalysisError('%s: the interpreter of the checker cannot follow IterationTransform on `for ... in %s`: %s (%s)' % (r.id, text, e, getattr(e, 'where', '')))
+        except PyRaise as e:
+            raise AnalysisError('%s: IterationTransform raises %r on `for ... in %s` (%s)' % (r.id, e.value, text, getattr(e, 'where', '')))
+        ck = 'Optimize.IterationTransform:%s' % key
+        if w.errors or (isinstance(tree, Obj) and tree.cls.name == 'ForInStatNode' and '$marker' in getattr(w.it.getattr(tree, 'body'), 'attrs', {})):
+            r.info('left to the generic iteration protocol: for ... in %s%s' % (text, ' (%s)' % w.errors[0] if w.errors else ''))
+            continue
+        r.inst(text, sample='for ... in %s' % text)
+        for L in (0, 1, 3):
+            try:
+                got = loop_simulate(w, tree, L, targets)
+            except Unmodelled as e:
+                raise AnalysisError('%s: the loop built for `for ... in %s` contains a construct the simulation does not know: %s' % (r.id, text, e))
+            want = exp(L)
+            if got != want:
+                if ck not in worst or len(text) < len(worst[ck][0]):
+                    worst[ck] = (text, L, got, want)
+                break
+
+    def fmt(tr):
+        return ' '.join('else' if t == ('else',) else t[0] if len(t) == 1 else '%s(%s)' % (t[0], ', '.join(map(_fmt_val, t[1:]))) for t in tr) or '(nothing)'
+    for ck, (text, L, got, want) in sorted(worst.items()):
+        r.violate(ck, c.module.rel, c.node.lineno, 'the loop IterationTransform builds for `for ... in %s` (abstract container of %d item(s)) runs [%s]; the Python loop runs [%s]: '
+                  'different iterations / target values / else clause' % (text, L, fmt(got), fmt(want)))
+    r.positive_control(_LoopSim.num(('ptr', 3)) == 3 and py_slice_indices(0, 9, 3, True) == [6, 3, 0], 'reference of reversed(a[0:9:3])')
+    return r
+
+
+def _fmt_val(v):
+    if isinstance(v, tuple):
+        if v[0] == 'item':
+            return 'item[%s]' % v[1]
+        if v[0] in ('key', 'val'):
+            return '%s[%s]' % (v[0], v[1])
+        if v[0] == 'pair':
+            return '(%s)' % ', '.join(map(_fmt_val, v[1:]))
+    return str(v)
+
+
+# ================================================================================================================ C14-CURSOR / C14-LEN
+# The C side of container iteration.  CURSOR: a helper that walks a sized sequence with a cursor (`pos = *ppos; ... item = GET_ITEM(seq, pos); *ppos = pos + 1`)
+# stops exactly when the cursor reaches the size and advances the stored cursor by exactly one per item.  LEN: a helper that hands out the container itself for
+# PyDict_Next / _PySet_NextEntry style iteration remembers the container's current size in *p_orig_length (the value the "changed size during iteration" test of
+# C14-S2 compares with), not a constant.
+from ..engine import cguard as _cguard
+from ..engine.cutil import strip_c_comments as _strip_c
+
+_ITEM_READ = re.compile(r'\b(Py(?:Tuple|List)_(?:GET_ITEM|GetItem(?:Ref)?)|__Pyx_Py(?:Tuple|List)_GET_ITEM(?:_REF)?|__Pyx_PyList_GetItemRef\w*|PySequence_ITEM|__Pyx_PySequence_ITEM)\s*\(\s*(\w+)\s*,\s*(\w+)\s*[,)]')
+_SIZE_OF = re.compile(r'\b(\w+)\s*=\s*(?:__Pyx_)?Py(?:Tuple|List|Sequence)_(?:GET_SIZE|Size)\s*\(\s*(\w+)\s*\)')
+
+
+def _unpp(body):
+    """drop preprocessor lines (both arms of every #if stay: each statement is analysed in its enclosing C blocks)"""
+    return '\n'.join('' if ln.lstrip().startswith('#') else ln for ln in body.split('\n'))
+
+
+def cursor_problems(body):
+    """-> [(instance text, problem or None)] for every cursor-indexed item read of one C function body"""
+    body = _unpp(_strip_c(body))
+    out = []
+    for m in _ITEM_READ.finditer(body):
+        seq, idx = m.group(2), m.group(3)
+        doms = _cguard.dominators(body, m.start())
+        text = '%s(%s, %s)' % (m.group(1), seq, idx)
+        # the cursor comes from a pointer parameter:  idx = *P
+        src = [re.match(r'(?:[\w\s]*\s)?%s\s*=\s*\*\s*(\w+)\s*;' % re.escape(idx), d.strip()) for d in doms]
+        src = [x.group(1) for x in src if x]
+        if not src:
+            continue            # not a cursor walk (constant / loop index)
+        sizes = [x.group(1) for d in doms for x in [_SIZE_OF.search(d)] if x and x.group(2) == seq]
+        prob = None
+        guard_ok = False
+        for d in doms:
+            g = re.match(r'if\s*\((.*)\)\s*(?:\{\s*)?return\s+0\s*;', ' '.join(d.split()))
+            if not g or idx not in re.findall(r'\w+', g.group(1)):
+                continue
+            try:
+                tree = cexpr.parse(g.group(1))
+            except cexpr.ParseError:
+                continue
+            names = {x[1] for x in cexpr.walk(tree) if x[0] == 'id'} - {idx}
+            sz = [n for n in names if n in sizes]
+            if len(sz) != 1:
+                continue
+            try:
+                table = [bool(cexpr.evaluate(tree, {idx: i, sz[0]: 5})) for i in (4, 5, 6)]
+            except cexpr.EvalError:
+                continue
+            guard_ok = True
+            if table != [False, True, True]:
+                prob = ('the exhaustion test `%s` in front of %s is %s for cursor = size-1 / size / size+1; it has to let size-1 pass and stop at size: %s'
+                        % (g.group(1), text, table, 'an item past the end is read' if not table[1] else 'the last item is skipped'))
+        if not guard_ok and prob is None:
+            prob = 'no test `cursor >= size -> return 0` dominates %s: the walk reads past the end of the sequence' % text
+        adv = [re.match(r'\*\s*%s\s*=\s*(.*);' % re.escape(src[0]), ' '.join(d.split())) for d in doms]
+        adv = [a.group(1) for a in adv if a]
+        if prob is None:
+            ok = False
+            for a in adv:
+                try:
+                    if cexpr.evaluate(cexpr.parse(a), {idx: 7}) == 8:
+                        ok = True
+                except (cexpr.ParseError, cexpr.EvalError):
+                    pass
+            if not ok:
+                prob = 'the stored cursor *%s is not advanced to %s + 1 before %s (%s): the same item is delivered again / items are skipped' % (
+                    src[0], idx, text, ('it is set to `%s`' % adv[-1]) if adv else 'it is never written')
+        out.append((text, prob))
+    return out
+
+
+def rule_cursor(ctx, funcs, floor=2):
+    r = Rule('C14-CURSOR', 'C iteration helpers that walk a tuple/list with a stored cursor stop exactly at the size of the sequence and advance the cursor by one per item', floor)
+    for d in funcs:
+        seen = {}
+        for text, prob in cursor_problems(d.body or ''):
+            i = seen[text] = seen.get(text, -1) + 1
+            key = '%s:%s%s' % (d.name, text, '#%d' % i if i else '')
+            r.inst(key, sample=key)
+            if prob:
+                r.violate(key, 'Cython/Utility/' + d.file, d.line, '%s: %s' % (d.name, prob))
+    pc = 'Py_ssize_t pos = *ppos;\nPy_ssize_t n = PyTuple_GET_SIZE(t);\nif (unlikely(pos > n)) return 0;\n*ppos = pos + 1;\nitem = PyTuple_GET_ITEM(t, pos);\n'
+    r.positive_control(any(p for _, p in cursor_problems(pc)), '`pos > size` as exhaustion test')
+    return r
+
+
+def len_problems(body, params):
+    """-> [(instance, problem or None)]: every `return <container parameter>;` of an iterator set-up helper"""
+    body = _unpp(_strip_c(body))
+    out = []
+    plen = [p for p in params if p and re.search(r'orig_length|length', p)]
+    if not plen:
+        return out
+    for m in re.finditer(r'\breturn\s+(\w+)\s*;', body):
+        obj = m.group(1)
+        if obj not in params:
+            continue
+        doms = _cguard.dominators(body, m.start())
+        if not any(re.match(r'Py_INCREF\s*\(\s*%s\s*\)' % re.escape(obj), d.strip()) or re.match(r'__Pyx_INCREF\s*\(\s*%s\s*\)' % re.escape(obj), d.strip()) for d in doms):
+            continue            # a converted object (result of a call assigned to the parameter), not the container itself
+        w = [re.match(r'\*\s*%s\s*=\s*(.*);' % re.escape(plen[0]), ' '.join(d.split())) for d in doms]
+        w = [x.group(1) for x in w if x]
+        text = 'return %s' % obj
+        if not w:
+            out.append((text, 'the container itself is handed out for in-place iteration but *%s is not set on this path' % plen[0]))
+        elif not re.match(r'(?:__Pyx_)?Py\w+_(?:Size|GET_SIZE)\s*\(\s*%s\s*\)$' % re.escape(obj), w[-1]):
+            out.append((text, 'the container itself is handed out for in-place iteration with *%s = %s instead of its current size: the "changed size during iteration" test '
+                        'compares with a wrong length (raises RuntimeError for an unchanged container / misses a change)' % (plen[0], w[-1])))
+        else:
+            out.append((text, None))
+    return out
+
+
+def rule_len(ctx, funcs, floor=2):
+    r = Rule('C14-LEN', 'iterator set-up helpers that hand out the dict/set itself remember its current size in *p_orig_length', floor)
+    for d in funcs:
+        names = d.param_names() if d.params is not None else []
+        for i, (text, prob) in enumerate(len_problems(d.body or '', names)):
+            key = '%s:%s#%d' % (d.name, text, i)
+            r.inst(key, sample=key)
+            if prob:
+                r.violate(key, 'Cython/Utility/' + d.file, d.line, '%s: %s' % (d.name, prob))
+    pc = 'if (is_dict) {\n*p_orig_length = 0;\nPy_INCREF(iterable);\nreturn iterable;\n}\n'
+    r.positive_control(any(p for _, p in len_problems(pc, ['iterable', 'is_dict', 'p_orig_length'])), 'constant stored as original length')
+    return r
+
+
+# ================================================================================================================ C14-KV
+# Which output of the dict-iteration helper is the key, which the value, which the item tuple - agreed between three places:
+#   C:      __Pyx_dict_iter_next_source_is_dict stores the key PyDict_Next delivers through one parameter, the value through another, the 2-tuple through a third;
+#           __Pyx_dict_iter_next forwards its parameters to it and unpacks an item of a non-dict mapping into (key parameter, value parameter) in that order;
+#   Python: DictIterationNextNode.generate_execution_code passes the address of the temporary it later assigns to key_target / value_target / tuple_target at exactly
+#           that parameter position (NULL where the target is absent).  The emitted call is obtained by interpreting the method (sC21.MiniPy) with a recording code writer.
+def kv_c_roles(funcs):
+    """-> ({role: parameter index of the emitted helper}, helper name, problems)"""
+    by_name = {d.name: d for d in funcs}
+    inner = None
+    for d in funcs:
+        m = re.search(r'\bPyDict_Next\s*\(\s*\w+\s*,\s*\w+\s*,\s*&\s*(\w+)\s*,\s*&\s*(\w+)\s*\)', _strip_c(d.body or ''))
+        if m:
+            inner, kvar, vvar = d, m.group(1), m.group(2)
+    if inner is None:
+        raise AnalysisError('no iteration helper calls PyDict_Next(dict, ppos, &key, &value)')
+    body = _unpp(_strip_c(inner.body))
+    roles = {}
+    for p, v in re.findall(r'\*\s*(\w+)\s*=\s*(\w+)\s*;', body):
+        if v == kvar:
+            roles.setdefault('key', set()).add(p)
+        elif v == vvar:
+            roles.setdefault('value', set()).add(p)
+        elif re.search(r'\b%s\s*=\s*PyTuple_New\s*\(\s*2\s*\)' % re.escape(v), body):
+            roles.setdefault('item', set()).add(p)
+    probs = []
+    for role in ('key', 'value', 'item'):
+        if len(roles.get(role, ())) != 1:
+            raise AnalysisError('%s: the parameter that receives the %s is not unique (%s)' % (inner.name, role, sorted(roles.get(role, ()))))
+    if len({next(iter(v)) for v in roles.values()}) != 3:
+        probs.append('%s stores two of key / value / item tuple through the same parameter' % inner.name)
+    inner_pos = {role: inner.param_names().index(next(iter(ps))) for role, ps in roles.items()}
+    # the emitted helper forwards to the inner one
+    outer = None
+    for d in funcs:
+        if d is inner:
+            continue
+        m = re.search(r'\b%s\s*\(([^;]*)\)\s*;' % re.escape(inner.name), _unpp(_strip_c(d.body or '')))
+        if m:
+            outer, fargs = d, [a.strip() for a in m.group(1).split(',')]
+    if outer is None:
+        raise AnalysisError('no helper forwards to %s' % inner.name)
+    onames = outer.param_names()
+    opos = {}
+    for role, i in inner_pos.items():
+        if i >= len(fargs) or fargs[i] not in onames:
+            raise AnalysisError('%s: cannot follow argument %d of the call to %s' % (outer.name, i, inner.name))
+        opos[role] = onames.index(fargs[i])
+    m = re.search(r'\b__Pyx_unpack_tuple2\s*\(\s*\w+\s*,\s*(\w+)\s*,\s*(\w+)\s*,', _unpp(_strip_c(outer.body)))
+    if m:
+        if [m.group(1), m.group(2)] != [onames[opos['key']], onames[opos['value']]]:
+            probs.append('%s unpacks an item tuple into (%s, %s); the first element of an item is the key and belongs into %s, the second into %s' % (
+                outer.name, m.group(1), m.group(2), onames[opos['key']], onames[opos['value']]))
+    return opos, outer, probs
+
+
+def _recorder_world(ix):
+    """MiniPy with a recording code writer and operand stubs that answer every generate_* / allocate / release request"""
+    _bind21()
+    events = []
+    none = lambda it, self, *a, **k: None
+
+    def leaf_default(o, name):
+        if name in ('result', 'py_result'):
+            return HostFn(lambda it: o.attrs['$tag'], name)
+        if name.startswith('generate_') or name in ('allocate', 'release', 'free_temps', 'make_owned_reference'):
+            def rec(it, *a, **k):
+                events.append((name, o.attrs['$tag']) + tuple(x.attrs.get('$tag') for x in a if isinstance(x, Obj) and '$tag' in x.attrs))
+            return HostFn(rec, name)
+        if name.startswith('is_'):
+            return False
+        raise AttributeError(name)
+    Leaf = StubClass('OperandStub', default=leaf_default)
+    n = [0]
+
+    def allocate_temp(it, self, *a, **k):
+        n[0] += 1
+        return 'tmp%d' % n[0]
+
+    def any_default(o, name):
+        if name.startswith('__'):
+            raise AttributeError(name)
+        return Obj(o.cls, {'$tag': name})
+    Any = StubClass('AnyStub', default=any_default, methods={'__call__': lambda it, self, *a, **k: Obj(self.cls, {'$tag': 'call'})})
+    FuncState = StubClass('FuncStateStub', methods=dict(allocate_temp=allocate_temp, release_temp=none))
+    Code = StubClass('CodeStub', methods=dict(putln=lambda it, self, text='', *a, **k: events.append(('line', text)), put=lambda it, self, text='', *a, **k: events.append(('line', text)),
+                                               mark_pos=none, error_goto_if=lambda it, self, cond, pos: 'if (%s) goto error;' % cond,
+                                               error_goto_if_neg=lambda it, self, v, pos: 'if (%s < 0) goto error;' % v, error_goto_if_null=lambda it, self, v, pos: 'if (!%s) goto error;' % v,
+                                               error_goto=lambda it, self, pos: 'goto error;', put_gotref=none, put_label=lambda it, self, l: events.append(('label', l)),
+                                               put_goto=lambda it, self, l: events.append(('goto', l)), new_label=lambda it, self, name=None: 'L_%s' % name))
+    TypeStub = StubClass('TypeStub', default=lambda o, name: False if name.startswith('is_') else (_ for _ in ()).throw(AttributeError(name)))
+    anyf = {'*': lambda name: Obj(Any, {'$tag': name})}
+    it = MiniPy(ix, stub_modules={'PyrexTypes': {'*': lambda name: Obj(TypeStub, {'$tag': name})}, 'Builtin': {'*': lambda name: Obj(TypeStub, {'$tag': name})}, 'Code': anyf,
+                                  'Nodes': {'UtilityCode': Obj(Any, {'$tag': 'UtilityCode'})}, 'ExprNodes': {'UtilityCode': Obj(Any, {'$tag': 'UtilityCode'})}})
+
+    def code():
+        return Obj(Code, dict(funcstate=Obj(FuncState), globalstate=Obj(Any, {'$tag': 'globalstate'})))
+    return it, events, Leaf, code, TypeStub
+
+
+def _split_args(s):
+    out, depth, cur = [], 0, ''
+    for ch in s:
+        if ch == ',' and depth == 0:
+            out.append(cur.strip())
+            cur = ''
+            continue
+        depth += ch in '([{'
+        depth -= ch in ')]}'
+        cur += ch
+    out.append(cur.strip())
+    return out
+
+
+def rule_kv(ctx, funcs, floor=4):
+    ix = ctx.index
+    r = Rule('C14-KV', 'dict iteration: the temporaries DictIterationNextNode assigns to the key / value / item targets are passed at the helper parameters through which the C helper '
+             'stores the key / value / item tuple of PyDict_Next; items of non-dict mappings are unpacked into (key, value)', floor)
+    opos, outer, cprobs = kv_c_roles(funcs)
+    key0 = '%s:key-value-item-parameters' % outer.name
+    r.inst(key0, sample='%s: key -> parameter %d, value -> %d, item -> %d' % (outer.name, opos['key'], opos['value'], opos['item']))
+    for p in cprobs:
+        r.violate(key0, 'Cython/Utility/' + outer.file, outer.line, p + ': `for k, v in mapping.items()` binds the value to k and the key to v')
+    c = ix.cls('Nodes', 'DictIterationNextNode')
+    fn = c.methods.get('generate_execution_code')
+    if fn is None:
+        raise AnalysisError('DictIterationNextNode.generate_execution_code vanished')
+    it, events, Leaf, mkcode, TypeStub = _recorder_world(ix)
+    roles = {'key': ('key_ref', 'coerced_key_var', 'key_target'), 'value': ('value_ref', 'coerced_value_var', 'value_target'), 'item': ('tuple_ref', 'coerced_tuple_var', 'tuple_target')}
+    for present in (('key',), ('value',), ('key', 'value'), ('item',)):
+        del events[:]
+        it.steps = 0
+        attrs = dict(pos=('scenario.py', 1, 0), dict_obj=Obj(Leaf, {'$tag': 'DICT'}), expected_size=Obj(Leaf, {'$tag': 'SIZE'}), pos_index_var=Obj(Leaf, {'$tag': 'POS'}),
+                     is_dict_flag=Obj(Leaf, {'$tag': 'ISDICT'}))
+        for role, (ref, co, tg) in roles.items():
+            on = role in present
+            attrs[ref] = Obj(Leaf, {'$tag': 'REF_%s' % role}) if on else None
+            attrs[co] = Obj(Leaf, {'$tag': 'CO_%s' % role}) if on else None
+            attrs[tg] = Obj(Leaf, {'$tag': 'TARGET_%s' % role}) if on else None
+        node = Obj(it.cls('Nodes', 'DictIterationNextNode'), attrs)
+        key = 'Nodes.DictIterationNextNode.generate_execution_code:targets=%s' % '+'.join(present)
+        try:
+            it.call(it.getattr(node, 'generate_execution_code'), [mkcode()], {})
+        except Unmodelled as e:
+            raise AnalysisError('C14-KV: the interpreter of the checker cannot follow DictIterationNextNode.generate_execution_code: %s (%s)' % (e, getattr(e, 'where', '')))
+        except PyRaise as e:
+            raise AnalysisError('C14-KV: DictIterationNextNode.generate_execution_code raises %r (%s)' % (e.value, getattr(e, 'where', '')))
+        calls = [re.search(r'\b%s\s*\((.*)\)\s*;' % re.escape(outer.name), ev[1]) for ev in events if ev[0] == 'line' and isinstance(ev[1], str)]
+        calls = [m for m in calls if m]
+        if len(calls) != 1:
+            raise AnalysisError('C14-KV: %d calls of %s emitted by DictIterationNextNode' % (len(calls), outer.name))
+        args = _split_args(calls[0].group(1))
+        r.inst(key, sample='%s: %s(%s)' % (key, outer.name, ', '.join(args)))
+        for role in ('key', 'value', 'item'):
+            want = '&REF_%s' % role if role in present else 'NULL'
+            got = args[opos[role]].replace(' ', '') if opos[role] < len(args) else '<missing>'
+            if got != want:
+                r.violate(key, c.module.rel, fn.lineno, 'DictIterationNextNode passes %s at parameter %d (%s) of %s, through which the helper stores the %s; the node assigns the %s target '
+                          'from %s: keys, values and item tuples are mixed up' % (got, opos[role], outer.param_names()[opos[role]], outer.name, role, role,
+                                                                                'REF_%s' % role if role in present else 'nothing (the parameter must be NULL)'))
+                break
+        # the temporaries are assigned to the targets of the same role
+        pairs = [(e[1], e[2]) for e in events if e[0] == 'generate_assignment_code' and len(e) > 2]
+        want_pairs = [('TARGET_%s' % role, 'CO_%s' % role) for role in ('key', 'value', 'item') if role in present]
+        if sorted(pairs) != sorted(want_pairs):
+            r.violate(key + ':assign', c.module.rel, fn.lineno, 'DictIterationNextNode assigns %s; expected %s' % (pairs, want_pairs))
+    r.positive_control(_split_args('a, f(b, c), &d') == ['a', 'f(b, c)', '&d'], 'argument splitting')
+    return r
+
+
+# ================================================================================================================ C14-ITER
+# IteratorNode: the C code emitted for iterating an exact list / tuple (forward and for reversed()).  The emitter (generate_result_code + generate_iter_next_result_code) is
+# interpreted with a recording code writer; the emitted statements (counter initialisation, exhaustion tests, item read, counter update) are executed by a small evaluator
+# of exactly these statement shapes for sequence lengths 0, 1 and 3: the indices read must be 0..len-1 (len-1..0 for reversed()), each inside the sequence.
+_IT_ASSIGN_SIZE = re.compile(r'^(?:Py_ssize_t\s+)?(\w+)\s*=\s*(?:__Pyx_)?Py(?:List|Tuple)_GET_SIZE\s*\(')
+_IT_ASSIGN_CONST = re.compile(r'^(?:Py_ssize_t\s+)?(\w+)\s*=\s*(-?\d+)\s*;')
+_IT_INCDEC = re.compile(r'^(\+\+|--)\s*(\w+)\s*;|^(\w+)\s*(\+\+|--)\s*;')
+_IT_BREAK = re.compile(r'^if\s*\(\s*(?:unlikely\s*\()?\s*(\w+)\s*(<=|>=|<|>|==|!=)\s*(-?\w+)\s*\)?\s*\)\s*break\s*;')
+_IT_READ = re.compile(r'^(\w+)\s*=\s*(?:__Pyx_NewRef\s*\(\s*)?(?:__Pyx_)?Py(?:List|Tuple|Sequence)_(?:GET_ITEM(?:_REF)?|ITEM|GetItem\w*)\s*\(\s*\w+\s*,\s*(\w+)')
+
+
+def _c_lines(events):
+    """emitted text -> C statements of the first preprocessor configuration (the #else arms are alternatives of the same statement)"""
+    out, skip = [], []
+    text = '\n'.join(e[1] for e in events if e[0] == 'line' and isinstance(e[1], str))
+    for ln in text.split('\n'):
+        s = ln.strip()
+        if s.startswith('#if'):
+            skip.append(False)
+        elif s.startswith('#else') or s.startswith('#elif'):
+            if skip:
+                skip[-1] = True
+        elif s.startswith('#endif'):
+            if skip:
+                skip.pop()
+        elif s and not any(skip):
+            for part in re.split(r'(?<=;)\s+(?=\S)', s):
+                out.append(part.strip())
+    return out
+
+
+def iter_simulate(init, nxt, L):
+    _bind21()
+    """-> list of indices read / problem strings"""
+    env, trace = {}, []
+
+    def val(tok):
+        if re.fullmatch(r'-?\d+', tok):
+            return int(tok)
+        if tok not in env:
+            raise Unmodelled('the emitted code reads %s before setting it' % tok)
+        return env[tok]
+
+    def run(lines):
+        for s in lines:
+            m = _IT_ASSIGN_SIZE.match(s)
+            if m:
+                env[m.group(1)] = L
+                continue
+            m = _IT_ASSIGN_CONST.match(s)
+            if m:
+                env[m.group(1)] = int(m.group(2))
+                continue
+            m = _IT_INCDEC.match(s)
+            if m:
+                op, name = (m.group(1), m.group(2)) if m.group(1) else (m.group(4), m.group(3))
+                env[name] = val(name) + (1 if op == '++' else -1)
+                continue
+            m = _IT_BREAK.match(s)
+            if m:
+                a, b = val(m.group(1)), val(m.group(3))
+                if {'<': a < b, '<=': a <= b, '>': a > b, '>=': a >= b, '==': a == b, '!=': a != b}[m.group(2)]:
+                    return 'break'
+                continue
+            m = _IT_READ.match(s)
+            if m:
+                i = val(m.group(2))
+                trace.append(i if 0 <= i < L else 'item [%d] read outside the sequence of %d' % (i, L))
+                continue
+            if re.search(r'\bbreak\b', s) or (re.search(r'\b(?:%s)\b' % '|'.join(map(re.escape, env)), s) and re.search(r'(?<![=!<>])=(?!=)|\+\+|--', s) if env else False):
+                raise Unmodelled('emitted statement %r' % s)
+        return None
+    run(init)
+    for _ in range(L + 3):
+        if run(nxt) == 'break':
+            return trace
+        if trace and isinstance(trace[-1], str):
+            return trace
+    trace.append('the loop does not stop after %d items' % (L + 3))
+    return trace
+
+
+def rule_iter(ctx, floor=4):
+    ix = ctx.index
+    r = Rule('C14-ITER', 'IteratorNode: the C code emitted for iterating an exact list / tuple, forward and reversed(), reads the items 0..len-1 (len-1..0) and nothing else', floor)
+    c = ix.cls('ExprNodes', 'IteratorNode')
+    for need in ('generate_result_code', 'generate_iter_next_result_code'):
+        if ix.find_method(c, need) is None:
+            raise AnalysisError('IteratorNode.%s vanished' % need)
+    it, events, Leaf, mkcode, TypeStub = _recorder_world(ix)
+    it.family_overrides.update({('ExprNode', 'result'): lambda it_, self: 'RES', ('ExprNode', 'py_result'): lambda it_, self: 'RES',
+                                ('ExprNode', 'generate_gotref'): lambda it_, self, *a, **k: None, ('IteratorNode', 'may_be_unsafe_shared'): lambda it_, self: 'SHARED'})
+    it._fc.clear()
+    for kind in ('list', 'tuple'):
+        for rev in (False, True):
+            del events[:]
+            it.steps = 0
+            seq = Obj(Leaf, {'$tag': 'SEQ', 'type': Obj(TypeStub, {'is_py%s_type' % kind: True, 'is_builtin_type': True, 'is_pyobject': True}), 'mult_factor': None})
+            node = Obj(it.cls('ExprNodes', 'IteratorNode'), dict(pos=('scenario.py', 1, 0), sequence=seq, reversed=rev, type=Obj(TypeStub, {'is_pyobject': True}),
+                                                               counter_cname=None, iter_func_ptr=None, may_be_a_sequence=False))
+            key = 'ExprNodes.IteratorNode:%s%s' % (kind, ':reversed' if rev else '')
+            code = mkcode()
+            try:
+                it.call(it.getattr(node, 'generate_result_code'), [code], {})
+                init = _c_lines(events)
+                del events[:]
+                it.call(it.getattr(node, 'generate_iter_next_result_code'), ['ITEM', code], {})
+                nxt = _c_lines(events)
+            except Unmodelled as e:
+                raise AnalysisError('C14-ITER: the interpreter of the checker cannot follow IteratorNode on %s: %s (%s)' % (key, e, getattr(e, 'where', '')))
+            except PyRaise as e:
+                raise AnalysisError('C14-ITER: IteratorNode raises %r on %s (%s)' % (e.value, key, getattr(e, 'where', '')))
+            r.inst(key, sample='%s: init [%s] next [%s]' % (key, ' '.join(init)[:120], ' '.join(nxt)[:200]))
+            for L in (0, 1, 3):
+                try:
+                    got = iter_simulate(init, nxt, L)
+                except Unmodelled as e:
+                    raise AnalysisError('C14-ITER: %s: %s' % (key, e))
+                want = list(range(L - 1, -1, -1)) if rev else list(range(L))
+                if got != want:
+                    r.violate(key, c.module.rel, c.node.lineno, 'the C loop IteratorNode emits for %s%s of %d item(s) reads %s; Python iterates the indices %s' % (
+                        'reversed ' if rev else '', kind, L, got, want))
+                    break
+    r.positive_control(iter_simulate(['c = __Pyx_PyList_GET_SIZE(RES);'], ['if (c < 0) break;', 'ITEM = __Pyx_PyList_GET_ITEM_REF(RES, c, 0);', '--c;'], 1) != [0],
+                       'reversed iteration that starts at len instead of len-1')
+    return r
